@@ -34,6 +34,13 @@ static void deviations(const gen::Spend& S, bool all_bits, std::vector<std::pair
         if (all_bits) for (size_t b = 0; b < it.size() * 8; b++) positions.push_back(b);
         else if (!it.empty()) { for (size_t byte : {size_t(0), it.size() / 2, it.size() - 1}) { positions.push_back(byte * 8); positions.push_back(byte * 8 + 7); } if (it.size() > 41) { positions.push_back(5 * 8 + 2); positions.push_back(40 * 8 + 1); } }
         for (size_t b : positions) emit("witness[" + std::to_string(i) + "] bit " + std::to_string(b) + " flipped", [=](TxIn& x) { x.witness[i][b / 8] ^= uint8_t(1 << (b % 8)); });
+        // length changes: one byte more / less, and - for items of a whole number of 32-byte words after a 33-byte head (control blocks) - 31 bytes more
+        emit("witness[" + std::to_string(i) + "] one byte 00 appended", [=](TxIn& x) { x.witness[i].push_back(0x00); });
+        if (!it.empty()) emit("witness[" + std::to_string(i) + "] last byte dropped", [=](TxIn& x) { x.witness[i].pop_back(); });
+        if (it.size() >= 33 && (it.size() - 33) % 32 == 0) {
+            emit("witness[" + std::to_string(i) + "] 31 bytes appended", [=](TxIn& x) { x.witness[i].insert(x.witness[i].end(), 31, 0x77); });
+            emit("witness[" + std::to_string(i) + "] 16 bytes appended", [=](TxIn& x) { x.witness[i].insert(x.witness[i].end(), 16, 0x77); });
+        }
         emit("witness[" + std::to_string(i) + "] removed", [=](TxIn& x) { x.witness.erase(x.witness.begin() + i); });
         emit("extra empty item before witness[" + std::to_string(i) + "]", [=](TxIn& x) { x.witness.insert(x.witness.begin() + i, bytes{}); });
         emit("witness[" + std::to_string(i) + "] duplicated", [=](TxIn& x) { x.witness.insert(x.witness.begin() + i, x.witness[i]); });
@@ -178,6 +185,17 @@ static void gen_c03_extended(std::vector<Case>& cases) {
     // P2SH-shaped funding output whose hash push is 19 / 21 bytes, spent as if it were a wrapped witness program
     for (int hl : {19, 21}) { gen::Spend S = gen::make_spend("p2sh-p2wpkh", sh);
       mk("P2SH-shaped output with a " + std::to_string(hl) + "-byte hash under a wrapped witness program", S, [&](Tx& f, Tx& t) { bytes spk{0xa9, uint8_t(hl)}; spk.insert(spk.end(), size_t(hl), 0x33); spk.push_back(0x87); f.vout[1].spk = spk; t.vin[1].prev_hash = txid(f); }); }
+    // witness programs of other versions and lengths under the witnesses of the four native witness spend shapes: nothing to compare for the
+    // unsupported combinations (out of scope), but set-up must refuse them or cope - it must not abort
+    for (std::string type : {"p2wpkh", "p2wsh", "p2tr-key", "p2tr-script"}) {
+        gen::Shape s2 = shape_of(type, gen::is_taproot_type(type) ? 0 : 1, 1);
+        gen::Spend S = gen::make_spend(type, s2);
+        for (int ver : {0, 1, 2, 16}) for (int plen : {2, 20, 31, 32, 33, 40}) {
+            mk("witness program v" + std::to_string(ver) + " of " + std::to_string(plen) + " bytes under a " + type + " witness", S, [&](Tx& f, Tx& t) {
+                bytes spk{uint8_t(ver == 0 ? 0x00 : 0x50 + ver), uint8_t(plen)}; bytes old = f.vout[1].spk; for (int i = 0; i < plen; i++) spk.push_back(old.size() > size_t(2 + i) ? old[2 + i] : uint8_t(0x42));
+                f.vout[1].spk = spk; t.vin[s2.pos].prev_hash = txid(f); });
+        }
+    }
     // 521-byte witness item for a P2WSH script that drops it
     { gen::Spend S = gen::make_spend("p2wsh-checksig", sh);
       mk("521-byte witness stack item", S, [&](Tx& f, Tx& t) { bytes ws = unhex("7551"); f.vout[1].spk = gen::p2wsh_spk(ws); t.vin[1].prev_hash = txid(f); t.vin[1].witness = {bytes(521, 7), ws}; }); }
